@@ -1,0 +1,9 @@
+//go:build verif
+
+// Machine-checked contracts for package l4postgres (comment-only; read by /verif/gvc).
+
+package l4postgres
+
+//@ func (m *MatchPostgres) Match(cx *layer4.Connection) (matched bool, err error)
+//@ requires wfm(cx)
+//@ safety C04
